@@ -13,7 +13,11 @@ EXPLANATION = (
     "the node unchanged, and without lookup_evidence the node is returned unchanged; W3 get_evidence_value / set_evidence_value negate on read and "
     "on write exactly when key < 0 and key on abs(key); W4 ground_evidence maps (arity-1, negated) to ground(-q, LABEL_EVIDENCE_NEG), (arity-1, "
     "plain) to POS, (arity-2, true) to POS, (arity-2, false) to NEG and everything else to MAYBE; W5 with propagate_evidence the evidence is "
-    "grounded before the queries and target.propagate(...) fills lookup_evidence inside ground_evidence; without it queries are grounded first."
+    "grounded before the queries and target.propagate(...) fills lookup_evidence inside ground_evidence; without it queries are grounded first; W6 LogicFormula.propagate, as a decision "
+    "table of its work loop: the value of a node is pushed to its single undetermined child only on paths where the node is not already explained - a "
+    "false conjunction with no false child, a true disjunction with no true child (a true conjunction / false disjunction determines all children); "
+    "node keys in the queue are assumed non-zero; W7 ConstraintAD.add: the inference 'the weights sum to one, hence the single head not known false is "
+    "true' scans exactly the heads whose weights were summed (the head being added and the heads already in the group)."
 )
 TECHNIQUE = "static analysis: path-wise decision-table extraction of the option/evidence wiring"
 LEVEL_TEXT = EXPLANATION
@@ -241,7 +245,115 @@ def rule_w4_w5(repo, col):
                "ground_all must forward propagate_evidence to ground_evidence", construct="ground_all: flag forwarding", function="ClauseDBEngine.ground_all")
 
 
+def rule_w6(repo, col):
+    """LogicFormula.propagate: a value is pushed to the single undetermined child only when the parent's value is not already explained"""
+    import re
+    from .. import dtable
+
+    f = repo.func("problog.formula", "LogicFormula.propagate")
+    m = f.module
+    wl = [n for n in f.node.body if isinstance(n, ast.While)]
+    if len(wl) != 1:
+        raise AnalysisError("LogicFormula.propagate: work loop not found")
+    paths = dtable.extract_block(wl[0].body, opaque_loops=True)
+    n = 0
+    seen = set()
+    for p in paths:
+        adds = [a for fn, a, _ in p.calls if fn.endswith(".add") and a and re.search(r"\[0\]\)?$", a[0])]
+        if not adds:
+            continue
+        typ = None
+        signs = set()
+        false_child = true_child = None
+        for s_, t, _ in p.conds:
+            mm = re.search(r"== '(conj|disj|atom)'$", s_)
+            if mm and t:
+                typ = mm.group(1)
+            mm = re.match(r"^(.*) ([<>]) 0$", s_)
+            if mm and "len(" not in mm.group(1):
+                neg = (mm.group(2) == "<") == bool(t)
+                signs.add("neg" if neg else "pos")
+            if re.match(r"^self\.FALSE in \w+$", s_):
+                false_child = t
+            if re.match(r"^self\.TRUE in \w+$", s_):
+                true_child = t
+        if len(signs) != 1:
+            # no sign test, or `nid < 0` and `nid > 0` both false: node keys in the queue are never 0 (0 is the TRUE key), so that path is infeasible
+            continue
+        sign = signs.pop()
+        if typ not in ("conj", "disj"):
+            continue
+        n += 1
+        key = (typ, sign, false_child if typ == "conj" else true_child)
+        if key in seen:
+            continue
+        seen.add(key)
+        if typ == "conj" and sign == "neg":
+            col.decide("W6", m, wl[0], false_child is False, "a false conjunction pushes FALSE to its last open child only when no child is already false",
+                       "propagate pushes FALSE to the single undetermined child of a false conjunction on a path where `self.FALSE in children` is %s: the conjunction is already explained by a "
+                       "false child, so the remaining child is not determined and forcing it changes conditional probabilities" % ("true" if false_child else "not tested"),
+                       construct="single child: false conjunction (false child %s)" % false_child, function="LogicFormula.propagate")
+        elif typ == "disj" and sign == "pos":
+            col.decide("W6", m, wl[0], true_child is False, "a true disjunction pushes TRUE to its last open child only when no child is already true",
+                       "propagate pushes TRUE to the single undetermined child of a true disjunction on a path where `self.TRUE in children` is %s: the disjunction is already explained by a "
+                       "true child, so the remaining child is not determined and forcing it changes conditional probabilities" % ("true" if true_child else "not tested"),
+                       construct="single child: true disjunction (true child %s)" % true_child, function="LogicFormula.propagate")
+        else:
+            col.ok("W6", m, wl[0], "a %s %s determines all of its children" % ("true" if sign == "pos" else "false", "conjunction" if typ == "conj" else "disjunction"),
+                   construct="single child: %s %s" % (sign, typ), function="LogicFormula.propagate")
+    col.floor("W6.single_child_paths", n, 4)
+
+
+def rule_w7(repo, col):
+    """ConstraintAD.add: 'the weights sum to one, so the single head not known false is true' - the heads scanned must be the heads summed"""
+    f = repo.func("problog.constraint", "ConstraintAD.add")
+    m = f.module
+    node = f.params[1]
+    tests = [n for n in walk_no_nested(f.node) if isinstance(n, ast.If) and isinstance(n.test, ast.Call) and isinstance(n.test.func, ast.Attribute) and n.test.func.attr == "is_one"]
+    if len(tests) != 1 or len(tests[0].test.args) != 1 or not isinstance(tests[0].test.args[0], ast.Name):
+        raise AnalysisError("ConstraintAD.add: `if <semiring>.is_one(w)` not found")
+    w = tests[0].test.args[0].id
+    parents = m.parents()
+
+    def member(expr):
+        """'node' for the head being added, 'nodes' for a loop variable over self.nodes"""
+        if isinstance(expr, ast.Name) and expr.id == node:
+            return "the head being added"
+        if isinstance(expr, ast.Name):
+            cur = parents.get(expr)
+            while cur is not None and cur is not f.node:
+                if isinstance(cur, ast.For) and isinstance(cur.target, ast.Name) and cur.target.id == expr.id and norm(cur.iter) == "self.nodes":
+                    return "the heads already in the group"
+                cur = parents.get(cur)
+        return None
+
+    summed = set()
+    for st in walk_no_nested(f.node):
+        if isinstance(st, ast.Assign) and norm(st.targets[0]) == w and st.lineno < tests[0].lineno:
+            for c in ast.walk(st.value):
+                if isinstance(c, ast.Call) and isinstance(c.func, ast.Attribute) and c.func.attr == "get_weight" and c.args:
+                    mb = member(c.args[0])
+                    if mb is None:
+                        raise AnalysisError("ConstraintAD.add: weight summand %s not understood" % norm(c))
+                    summed.add(mb)
+    scanned = set()
+    for c in ast.walk(tests[0]):
+        if isinstance(c, ast.Compare) and len(c.ops) == 1 and isinstance(c.ops[0], (ast.NotEq, ast.Eq)) and isinstance(c.left, ast.Call) and isinstance(c.left.func, ast.Attribute) \
+                and c.left.func.attr == "get_evidence_value" and c.left.args and norm(c.comparators[0]).endswith(".FALSE"):
+            mb = member(c.left.args[0])
+            if mb is None:
+                raise AnalysisError("ConstraintAD.add: scanned head %s not understood" % norm(c))
+            scanned.add(mb)
+    if not summed or not scanned:
+        raise AnalysisError("ConstraintAD.add: weight sum / candidate scan not found (%s / %s)" % (sorted(summed), sorted(scanned)))
+    col.decide("W7", m, tests[0], summed == scanned, "the heads scanned for 'not known false' are the heads whose weights were summed",
+               "ConstraintAD.add concludes from `is_one(%s)` that the single head not known false is true, but %s sums %s while the scan covers %s: a head that is summed but not scanned "
+               "can still be true, so another head is wrongly fixed to TRUE" % (w, w, sorted(summed), sorted(scanned)), construct="is_one(w): summed vs scanned heads", function="ConstraintAD.add")
+
+
 def run(repo, col):
+    col.rule("W7", "AD constraint propagation: summed heads == scanned heads")
+    col.rule("W6", "evidence propagation on the formula: unit inference only when the parent is not already explained")
     col.rule("W1", "weight propagation constants")
     col.rule("W2", "propagate_evidence lookup table")
     col.rule("W3", "get/set_evidence_value sign handling")
@@ -251,3 +363,5 @@ def run(repo, col):
     rule_w2(repo, col)
     rule_w3(repo, col)
     rule_w4_w5(repo, col)
+    rule_w6(repo, col)
+    rule_w7(repo, col)
